@@ -270,7 +270,7 @@ fn run_script<const N: usize>(readers: usize, lines: &[String], rec: &mut CaseRe
 }
 
 /// Free-running stress. Returns (violations, stats).
-fn run_stress<const N: usize>(readers: usize, millis: u64, seed: u64, rec: &mut CaseRec) -> Vec<String> {
+fn run_stress<const N: usize>(readers: usize, millis: u64, seed: u64, second_caller: bool, rec: &mut CaseRec) -> Vec<String> {
     let w = new_world::<N>();
     let (cache, handle, src) = (w.cache, w.handle, w.src.clone());
     let stop: &'static AtomicBool = Box::leak(Box::new(AtomicBool::new(false)));
@@ -287,11 +287,12 @@ fn run_stress<const N: usize>(readers: usize, millis: u64, seed: u64, rec: &mut 
         let mut v = 0u64;
         while Instant::now() < deadline && bad.len() < 3 {
             v += 1;
-            put_version(&src, v);
-            notify(&src);
-            if !barrier(&src) { bad.push("event-never-taken the reloader thread does not take pending events".into()); break; }
+            // read before the edit is announced: with a second caller the reload may run before our own request
             let rid0 = handle.last_reload_id().verif_raw();
             started.fetch_add(1, SeqCst);
+            put_version(&src, v);
+            notify(&src);
+            if !barrier(&src) { bad.push("event-never-taken the reloader thread does not take pending events".into()); finished.fetch_add(1, SeqCst); break; }
             cache.hot_reload();
             finished.fetch_add(1, SeqCst);
             // hot_reload returned: its reload is finished
@@ -303,6 +304,13 @@ fn run_stress<const N: usize>(readers: usize, millis: u64, seed: u64, rec: &mut 
         }
         (bad, v)
     });
+    // a second thread calling hot_reload() all the time (no edits of its own): `hot_reload` must still return only after
+    // ITS request was served — being woken by the answer to the other caller is not enough
+    let caller2 = second_caller.then(|| std::thread::spawn(move || {
+        let mut n = 0u64;
+        while !stop.load(SeqCst) && Instant::now() < deadline { started.fetch_add(1, SeqCst); cache.hot_reload(); finished.fetch_add(1, SeqCst); n += 1; if n % 8 == 0 { std::thread::yield_now(); } }
+        n
+    }));
     let rs: Vec<_> = (0..readers).map(|ri| std::thread::spawn(move || {
         let mut rng = Prng::new(seed ^ (ri as u64 + 1).wrapping_mul(0x51_7C_C1_B7));
         let mut bad: Vec<String> = vec![];
@@ -377,6 +385,13 @@ fn run_stress<const N: usize>(readers: usize, millis: u64, seed: u64, rec: &mut 
         bad.push("stress-hung reloader or reader threads still blocked 20 s after the stop signal".into());
         return bad; // threads leaked
     }
+    if let Some(c2) = caller2 {
+        let t2 = Instant::now();
+        while !c2.is_finished() && t2.elapsed() < Duration::from_secs(20) { std::thread::sleep(Duration::from_millis(2)); }
+        if !c2.is_finished() { bad.push("stress-hung the second hot_reload caller is still blocked 20 s after the stop signal".into()); return bad; }
+        let n = c2.join().unwrap_or(0);
+        rec.stat(format!("stress/second-caller-calls={}", if n == 0 { "0" } else { ">0" }));
+    }
     let (rb, versions) = reloader.join().unwrap_or((vec!["harness-panic reloader thread panicked".into()], 0));
     bad.extend(rb);
     let mut kinds = [0u64; 4];
@@ -418,7 +433,8 @@ impl Engine for IsoEngine {
         if idx % 3 == 2 {
             let readers = rng.range(1, if tier == Tier::Thorough { 12 } else { 6 });
             let ms = if tier == Tier::Thorough { 1500 } else { 220 };
-            return vec![format!("iso.stress-run {k} {readers} {ms} {}", rng.below(1 << 30))];
+            let two = if idx % 6 == 5 { " 2" } else { "" };
+            return vec![format!("iso.stress-run {k} {readers} {ms} {}{two}", rng.below(1 << 30))];
         }
         // random script: mostly valid
         let readers = rng.range(1, 4);
@@ -468,12 +484,14 @@ impl IsoEngine {
                     i = j;
                     continue;
                 }
-                (Some("iso.stress-run"), 5) if num(1).map_or(false, |k| SIZES.contains(&k)) && num(2).map_or(false, |n| (1..=64).contains(&n)) && num(3).is_some() && num(4).is_some() => {
+                (Some("iso.stress-run"), 5 | 6) if num(1).map_or(false, |k| SIZES.contains(&k)) && num(2).map_or(false, |n| (1..=64).contains(&n)) && num(3).is_some() && num(4).is_some() => {
                     let (k, n, ms, seed) = (num(1).unwrap(), num(2).unwrap(), num(3).unwrap().min(20_000) as u64, num(4).unwrap() as u64);
                     rec.nontrivial = true;
                     rec.stat(format!("stress/words={k}"));
                     rec.stat(format!("stress/readers={n}"));
-                    let bad = with_n!(k, N => run_stress::<N>(n, ms, seed, rec), else unreachable!());
+                    let second = num(5) == Some(2);
+                    if second { rec.stat("stress/two-callers"); }
+                    let bad = with_n!(k, N => run_stress::<N>(n, ms, seed, second, rec), else unreachable!());
                     for b in bad.iter().take(4) { rec.oracle_fail(b.clone()); }
                     rec.op(format!("iso.stress {k} {n} {seed}"), if bad.is_empty() { "isolated" } else { "violated" });
                 }
